@@ -1,4 +1,5 @@
 import PytaskProofs.Lemmas.EngineSkip
+import PytaskProofs.Lemmas.EngineAll
 /-!
 # C06 — skip markers and -k / -m selections decide exactly which tasks may run
 
@@ -143,6 +144,40 @@ theorem C06_exit (F : BodyFn) (P : Project) (cfg : Cfg) (w : World) (picks : Lis
     rcases hu with hu | hu
     · exact absurd (h2 _ hu) (by simp)
     · exact h1 hu
+
+/-- **C06_all_reported.** "Every other task is reported as skipped": in a build that ran to the end
+of its loop with exit code OK, every task of the project was handed out by the scheduler — so, by
+`C06_skip` / `C06_select`, every task that is not eligible or lies in the closure of a user-skipped
+task *has* the report SKIP. -/
+theorem C06_all_reported (F : BodyFn) (P : Project) (cfg : Cfg) (w : World) (picks : List Nat) (r : Result)
+    (g : G) (marks : List Nat)
+    (hd : createDag P cfg = .ok (g, marks)) (hb : build F P cfg w picks = .ok r)
+    (hc : r.complete = true) (hok : r.exit = exitCode "OK")
+    (t : Nat) (ht : t ∈ P.tasks.map (·.id)) :
+    t ∈ picks ∧ ((¬ Eligible g cfg t ∨ ∃ a, UserSkipped P a ∧ (t = a ∨ t ∈ taskDesc g a)) → (t, Outcome.skip) ∈ r.reports) := by
+  obtain ⟨so, so', s', hso, hloop, hs, _, _, _, _, _, hexit, hcomp⟩ := build_run hd hb
+  have hncr : s'.crashed = false := by
+    cases h : s'.crashed
+    · rfl
+    · rw [hexit, h] at hok; simp only [if_true] at hok; revert hok; decide
+  have hnf : s'.reports.any (fun r => r.2 == Outcome.fail) = false := by
+    cases h : s'.reports.any (fun r => r.2 == Outcome.fail)
+    · rfl
+    · rw [hexit, hncr, h] at hok; simp only [Bool.false_eq_true, if_false, if_true] at hok; revert hok; decide
+  have hns : s'.stop = false := by
+    cases h : s'.stop
+    · rfl
+    · obtain ⟨u, hu⟩ := hs.stop_fail (by simp) h
+      have : s'.reports.any (fun r => r.2 == Outcome.fail) = true := List.any_eq_true.2 ⟨_, hu, by simp⟩
+      rw [hnf] at this; cases this
+  have hdry : so'.isActive = false := by
+    rw [hcomp, hns, hncr] at hc
+    simpa using hc
+  have hp : t ∈ picks := build_all_picked hd so so' s' hso hloop hdry ht
+  refine ⟨hp, ?_⟩
+  rintro (hne | ⟨a, ha, hta⟩)
+  · exact (C06_select F P cfg w picks r g marks hd hb t ht hne).2.2 hp
+  · exact (C06_skip F P cfg w picks r g marks hd hb a ha t hta).2.2 hp
 
 /-! ## non-vacuity: the hypotheses are satisfiable on non-trivial data, and the conclusions bite -/
 
